@@ -92,19 +92,22 @@ def polarity(ctx):
             ctx.violation(c, f"unpolarity(x) gives {out[0]} [{out[1]!r}], expected x * pss", fn2)
 
 
-def hodge_spec(signature, xk, undual=False):
+def hodge_spec(signature, xk, undual=False, basis=None):
+    from .c02 import basis_sign_fn
+    sgn = basis_sign_fn(signature, basis) if basis else (lambda a, b: spec_sign(a, b, signature))
     Pk = (1 << len(signature)) - 1
     res = {}
     for k in xk:
         comp = Pk - k
-        s = spec_sign(comp, k, signature) if undual else spec_sign(k, comp, signature)
+        s = sgn(comp, k) if undual else sgn(k, comp)
         res[comp] = Poly.atom(f"a{k}") * Poly.const(s)
     return res
 
 
-@rule("C05.hodge", props=["C05"], min_instances=4, mutants=[
+@rule("C05.hodge", props=["C05", "C14"], min_instances=6, mutants=[
     ("hodge uses the transposed table entry", ("codegen", "-v if x.algebra.signs[eI, key_dual] < 0 else v", "-v if x.algebra.signs[key_dual, eI] < 0 else v")),
     ("unhodge uses the hodge entry", ("codegen", "-v if x.algebra.signs[key_dual, eI] < 0 else v", "-v if x.algebra.signs[eI, key_dual] < 0 else v")),
+    ("sign from the bit-twiddling helper (assumes blades are spelled in bit order)", ("codegen", "-v if x.algebra.signs[eI, key_dual] < 0 else v", "-v if x.algebra._swap_blades_bin(eI, key_dual)[1] < 0 else v")),
     ("complement of the wrong key", ("codegen", "    return {(key_dual := len(x.algebra) - 1 - eI): -v if x.algebra.signs[eI, key_dual] < 0 else v", "    return {(key_dual := len(x.algebra) - eI): -v if x.algebra.signs[eI, key_dual - 1] < 0 else v")),
 ])
 def hodge(ctx):
@@ -117,6 +120,11 @@ def hodge(ctx):
             c = f"codegen.{cg}#{name}"
             got = run_product(ctx, repo, cg, sig, xk, (), c, unary=True)
             compare_result(ctx, c, fn, got, hodge_spec(sig, xk, undual), "unhodge" if undual else "hodge")
+        from .c02 import BASIS_REP
+        name, sig, basis, xk, _ = BASIS_REP
+        c = f"codegen.{cg}#{name}"
+        got = run_product(ctx, repo, cg, sig, xk, (), c, unary=True, basis=basis)
+        compare_result(ctx, c, fn, got, hodge_spec(sig, xk, undual, basis), ("unhodge" if undual else "hodge") + " in a custom basis")
 
 
 @rule("C05.rp-filter", props=["C05"], min_instances=2, mutants=[
@@ -157,18 +165,20 @@ def rp_filter(ctx):
         ctx.violation(c, f"codegen_rp passes its operands as {t.operands}", t.node)
 
 
-def rp_spec(signature, xk, yk):
+def rp_spec(signature, xk, yk, basis=None):
+    from .c02 import basis_sign_fn
+    spec_sign = basis_sign_fn(signature, basis) if basis else (lambda a, b, s_=None: __import__("kverif.products", fromlist=["spec_sign"]).spec_sign(a, b, signature))
     Pk = (1 << len(signature)) - 1
     res = {}
     for kx in xk:
         for ky in yk:
             A, B = Pk - kx, Pk - ky
-            s = spec_sign(kx, A, signature) * spec_sign(ky, B, signature)     # hodge of each blade
+            s = spec_sign(kx, A) * spec_sign(ky, B)     # hodge of each blade
             if A & B:
                 continue
-            s *= spec_sign(A, B, signature)                                    # outer product of the duals
+            s *= spec_sign(A, B)                                    # outer product of the duals
             K = A | B
-            s *= spec_sign(Pk - K, K, signature)                               # unhodge
+            s *= spec_sign(Pk - K, K)                               # unhodge
             if s == 0:
                 continue
             k = Pk - K
@@ -176,7 +186,7 @@ def rp_spec(signature, xk, yk):
     return res
 
 
-@rule("C05.rp-table", props=["C05"], min_instances=5, mutants=[
+@rule("C05.rp-table", props=["C05", "C14"], min_instances=6, mutants=[
     ("transposed index pair in the unhodge factor", ("codegen", "algebra.signs[key_pss - (pair[0] ^ pair[1]), pair[0] ^ pair[1]]", "algebra.signs[pair[0] ^ pair[1], key_pss - (pair[0] ^ pair[1])]")),
     ("one hodge factor missing", ("codegen", "        algebra.signs[pair[1], key_pss - pair[1]] *\n", "")),
     ("outer factor transposed", ("codegen", "algebra.signs[key_pss - pair[0], key_pss - pair[1]] *", "algebra.signs[key_pss - pair[1], key_pss - pair[0]] *")),
@@ -195,3 +205,8 @@ def rp_table(ctx):
         c = f"codegen.{cg}#table:{name}"
         got = run_product(ctx, repo, cg, sig, xk, yk, c)
         compare_result(ctx, c, fn, got, rp_spec(sig, xk, yk), "regressive product vs unhodge(hodge(a) ^ hodge(b))")
+    from .c02 import BASIS_REP
+    name, sig, basis, xk, yk = BASIS_REP
+    c = f"codegen.{cg}#table:{name}"
+    got = run_product(ctx, repo, cg, sig, xk, yk, c, basis=basis)
+    compare_result(ctx, c, fn, got, rp_spec(sig, xk, yk, basis), "regressive product vs unhodge(hodge(a) ^ hodge(b)) in a custom basis")
